@@ -63,39 +63,24 @@ Theorem C13_assoc_changes_only_i : forall l raw v, zlen l <= MaxInt ->
 Proof. exact assoc_changes_only_i. Qed.
 Print Assumptions C13_assoc_changes_only_i.
 
-(* String indices are byte offsets that must fall on character boundaries.
-   FULL STATEMENT (false of the code, see C13_string_index_boundary_refuted):
-     forall rs raw, forallb valid_rune rs = true -> zlen (encode_all rs) <= MaxInt ->
-       let s := encode_all rs in
-       match ref_string_range rs s raw with
-       | Some (lo, hi) => convertStringIndex raw s = Ok (lo, hi)
-       | None => exists e, convertStringIndex raw s = Err e
-       end.
-   Proved for every text whose code points are valid and different from U+FFFD
-   ([good rs]): a single index succeeds iff a code point starts there (the range
-   is that code point), a slice succeeds iff both of its bounds are boundaries
-   of the code point sequence. *)
-Theorem C13_string_index_boundary_partial : forall rs raw,
-  good rs -> zlen (encode_all rs) <= MaxInt ->
+(* String indices are byte offsets that must fall on character boundaries:
+   for every text whose code points are valid (U+FFFD included) and every
+   index value, a single index succeeds iff a code point starts at that byte
+   offset (the range is that code point), a slice succeeds iff both of its
+   bounds are boundaries of the code point sequence; otherwise an error. *)
+Theorem C13_string_index_boundary : forall rs raw,
+  forallb valid_rune rs = true -> zlen (encode_all rs) <= MaxInt ->
   let s := encode_all rs in
   match ref_string_range rs s raw with
   | Some (lo, hi) => convertStringIndex raw s = Ok (lo, hi)
   | None => exists e, convertStringIndex raw s = Err e
   end.
-Proof. exact string_index_boundary_partial. Qed.
-Print Assumptions C13_string_index_boundary_partial.
-
-(* Witness: in "a�b" a code point starts at byte 1, yet index 1 is refused. *)
-Theorem C13_string_index_boundary_refuted :
-  exists rs raw, forallb valid_rune rs = true /\
-    ref_string_range rs (encode_all rs) raw = Some (1, 4) /\
-    convertStringIndex raw (encode_all rs) = Err ENotBoundary.
-Proof. exact string_index_boundary_refuted. Qed.
-Print Assumptions C13_string_index_boundary_refuted.
+Proof. exact string_index_boundary. Qed.
+Print Assumptions C13_string_index_boundary.
 
 (* The result of indexing a string is the byte slice between the two offsets. *)
 Theorem C13_index_string_ref : forall rs raw,
-  good rs -> zlen (encode_all rs) <= MaxInt ->
+  forallb valid_rune rs = true -> zlen (encode_all rs) <= MaxInt ->
   let s := encode_all rs in
   match ref_string_range rs s raw with
   | Some (lo, hi) => indexString s raw = Ok (VStr (firstn (Z.to_nat (hi - lo)) (skipn (Z.to_nat lo) s)))
@@ -106,7 +91,7 @@ Print Assumptions C13_index_string_ref.
 
 (* Replacing part of a string leaves the prefix and the suffix untouched. *)
 Theorem C13_assoc_string_frame : forall rs raw rp,
-  good rs -> zlen (encode_all rs) <= MaxInt ->
+  forallb valid_rune rs = true -> zlen (encode_all rs) <= MaxInt ->
   let s := encode_all rs in
   match ref_string_range rs s raw with
   | Some (lo, hi) =>
@@ -149,7 +134,7 @@ Proof. exact rune_ok_all. Qed.
 Print Assumptions C13_every_rune_roundtrips.
 
 (* The model's own result passes the oracle on every operation: for every list
-   length, every index value, every valid text without U+FFFD. *)
+   length, every index value, every text. *)
 Theorem C13_model_meets_oracle_convert : forall n raw, in_int_range n ->
   check_C13 (OpConvert n raw) (run_op (OpConvert n raw)) = true.
 Proof. exact model_meets_oracle_convert. Qed.
@@ -165,15 +150,15 @@ Theorem C13_model_meets_oracle_assoc_list : forall l raw v, zlen l <= MaxInt ->
 Proof. exact model_meets_oracle_assoc_list. Qed.
 Print Assumptions C13_model_meets_oracle_assoc_list.
 
-Theorem C13_model_meets_oracle_index_str_partial : forall rs s raw, good_b rs = true -> zlen s <= MaxInt ->
+Theorem C13_model_meets_oracle_index_str : forall rs s raw, zlen s <= MaxInt ->
   check_C13 (OpIndexStr (Some rs) s raw) (run_op (OpIndexStr (Some rs) s raw)) = true.
 Proof. exact model_meets_oracle_index_str. Qed.
-Print Assumptions C13_model_meets_oracle_index_str_partial.
+Print Assumptions C13_model_meets_oracle_index_str.
 
-Theorem C13_model_meets_oracle_assoc_str_partial : forall rs s raw rp, good_b rs = true -> zlen s <= MaxInt ->
+Theorem C13_model_meets_oracle_assoc_str : forall rs s raw rp, zlen s <= MaxInt ->
   check_C13 (OpAssocStr (Some rs) s raw (Some rp)) (run_op (OpAssocStr (Some rs) s raw (Some rp))) = true.
 Proof. exact model_meets_oracle_assoc_str. Qed.
-Print Assumptions C13_model_meets_oracle_assoc_str_partial.
+Print Assumptions C13_model_meets_oracle_assoc_str.
 
 (* ---- non-vacuity ---- *)
 Example C13_ex_incl_minus1 :
@@ -191,3 +176,9 @@ Example C13_ex_multibyte :
   indexString [228;184;150;231;149;140]%N (IStr [51; 46; 46]%N) = Ok (VStr [231;149;140]%N)
   /\ indexString [228;184;150;231;149;140]%N (IInt 1) = Err ENotBoundary.
 Proof. vm_compute. split; reflexivity. Qed.
+Example C13_ex_fffd :
+  (* "a\ufffdb"[1] is the code point U+FFFD, "a\ufffdb"[..4] = "a\ufffd", offset 2 is refused *)
+  indexString [97;239;191;189;98]%N (IInt 1) = Ok (VStr [239;191;189]%N)
+  /\ indexString [97;239;191;189;98]%N (IStr [46;46;52]%N) = Ok (VStr [97;239;191;189]%N)
+  /\ indexString [97;239;191;189;98]%N (IInt 2) = Err ENotBoundary.
+Proof. vm_compute. repeat split; reflexivity. Qed.
